@@ -38,29 +38,11 @@ Definition mk_tx (o : opts) (op0 : op) (h v : Z) (fee : option Z) (sok nb : bool
      t_static_ok := sok; t_nil_benef := nb |}.
 
 (* ---- boolean trigger predicates over a model step (guards of the _partial theorems) ---- *)
-(* C20.expiry_blocks_ge_2p63 *)
-Definition trig_create_overflow (e : env) (price : Z) : bool :=
-  2^63 <=? e_v e + (price - o_base (e_opts e)) / o_perblock (e_opts e).
-Definition trig_renew_overflow (e : env) (d : domain) (price : Z) : bool :=
-  2^63 <=? d_expiry d + price / o_perblock (e_opts e).
-Definition trig_purchase_overflow (e : env) (d : domain) (offer : Z) : bool :=
-  2^63 <=? Z.max (d_expiry d) (e_v e)
-           + (if sale_branch e d then offer - default 0 (d_price d) else offer - o_base (e_opts e))
-             / o_perblock (e_opts e).
 (* C20.purchase_misses_uncommitted_sub *)
 Definition trig_purchase_uncommitted (s : state) (o : op) : bool :=
   match o with
   | Purchase _ _ p _ =>
       existsb (fun n => is_sub_of p n && negb (bool_decide (n ∈ snap s))) (map fst (map_to_list (reg s)))
-  | _ => false
-  end.
-Definition trig_step_overflow (s : state) (t : tx) : bool :=
-  match t_op t with
-  | Create _ _ n _ _ price => negb (is_sub n) && trig_create_overflow (t_env t) price
-  | Renew _ n price =>
-      match reg s !! n with Some d => trig_renew_overflow (t_env t) d price | None => false end
-  | Purchase _ _ n offer =>
-      match reg s !! n with Some d => trig_purchase_overflow (t_env t) d offer | None => false end
   | _ => false
   end.
 
@@ -72,11 +54,9 @@ Fixpoint mm_steps (o : opts) (s : state) (i : nat) (steps : list cstep) : option
       let t := mk_tx o op0 h v fee sok nb in
       let '(s', ok') := deliver s t in
       if Bool.eqb ok ok' && state_matches s' ob then mm_steps o s' (S i) rest else
-      (* inside a known-trigger region the comparison is one-sided: the implementation may
-         behave like the (defective) model — above — or satisfy the property:
-         - block count not representable: the transaction is refused without a trace;
-         - purchase meeting an uncommitted sub-name: that sub-name is deleted as well *)
-      if trig_step_overflow s t && negb ok && state_matches s ob then mm_steps o s (S i) rest else
+      (* inside the known-trigger region the comparison is one-sided: the implementation may
+         behave like the (defective) model — above — or satisfy the property: a purchase meeting
+         an uncommitted sub-name deletes that sub-name as well *)
       let sc := {| reg := reg s; snap := dom (reg s); bal := bal s; pool := pool s |} in
       let '(s2, ok2) := deliver sc t in
       let s2' := {| reg := reg s2; snap := snap s; bal := bal s2; pool := pool s2 |} in
@@ -197,10 +177,6 @@ Definition ideal_expiry (o : opts) (b : obs) (op0 : op) (v : Z) : option (name *
   | _ => None
   end.
 
-(* known trigger C20.expiry_blocks_ge_2p63: the ideal expiry does not fit int64 *)
-Definition trig_expiry_overflow (o : opts) (b : obs) (op0 : op) (v : Z) : bool :=
-  match ideal_expiry o b op0 v with Some (_, x) => 2^63 <=? x | None => false end.
-
 (* sale status: every on-sale record of the new state was on sale before for the same owner at the
    same price, or the transaction is that owner's successful Sell at that price
    (mirrors proofs/OnsProofs.v listing_ok) *)
@@ -230,7 +206,7 @@ Definition listed_after (listed : list (name * addr)) (op0 : op) (ok : bool) : l
 
 (* classes: 0 none; 7 a name is on sale without its owner's sell transaction; 1 unauthorised change; 3 expiry not the blocks bought; 4 sub-name
    invariant broken; 5 failed transaction left a trace; 6 two records for one name;
-   11 / 12 = class 4 / 3 inside the known trigger regions *)
+   11 = class 4 inside the known trigger region *)
 Definition monitor_step (o : opts) (committed : list name) (listed : list (name * addr)) (b : obs)
     (st : cstep) : nat :=
   match st with
@@ -251,11 +227,11 @@ Definition monitor_step (o : opts) (committed : list name) (listed : list (name 
            | Some (n, x) => match obs_reg a !! n with Some d => negb (d_expiry d =? x) | None => true end
            | None => false
            end
-        then (if trig_expiry_overflow o b op0 v then 12%nat else 3%nat) else
+        then 3%nat else
         if sub_inv b && negb (sub_inv a)
         then (if trig_uncommitted_sub committed b op0 then 11%nat else 4%nat) else
         if sub_expiry_inv b && negb (sub_expiry_inv a)
-        then (if trig_uncommitted_sub committed b op0 || trig_expiry_overflow o b op0 v then 11%nat else 4%nat)
+        then (if trig_uncommitted_sub committed b op0 then 11%nat else 4%nat)
         else 0%nat
   end.
 
